@@ -29,7 +29,7 @@ func runC10(r *Run, p *Prog) {
 		return
 	}
 	dm := newDeliveryModel(p, ro, entry)
-	pc := NewPathCounter(p, dm.isLeaf)
+	pc := dm.counter()
 	wset := map[ssa.Instruction]bool{}
 	for _, w := range ro.WSites {
 		wset[w.Instr] = true
